@@ -406,7 +406,7 @@ def cmd_check(prop, tier, only, keep, seed):
                     v['known'] = k['_line']
                     if k['_line'] not in known_printed:
                         known_printed.append(k['_line'])
-                        print('KNOWN-FINDING: property=%s %s' % (prop, k['_line'][6:].strip()))
+                        print('KNOWN-FINDING: property=%s %s' % (prop, re.sub(r'^property=\S+\s*', '', k['_line'][6:].strip())))
                 elif rp.get('ran') and not rp.get('reproduced'):
                     unreproduced += 1
                     r['inconclusive'].append('counterexample for "%s" did not reproduce natively: %s' % (v['description'], v['native_out'][-200:]))
